@@ -34,6 +34,8 @@ func checkC10(p *Prog, r *Report) {
 	r.Rule("R7", "entity removal cascade (C06-R1/R2): the entity removed is the one announced as removed, and the subscription, binding and client-cache clean-ups are applied to that entity's own address, only if it was found")
 	entityRemovalCascade(p, r, "R7", "R7")
 	approvalCleanupRule(p, r, "R9")
+	r.Rule("R10", "a list field whose slice header a getter hands out (callers iterate it without the lock) is never modified in place: no element store, no copy into it, no in-place library routine (slices.DeleteFunc, sort.Slice, …); removal builds a new slice")
+	escapedListsImmutable(p, ls, r, "R10", nil)
 	r.Rule("R2", "a function that drops all pending approvals of a peer stops their timers first, in the same critical section")
 	nDrop := 0
 	for _, fn := range ls.fns {
